@@ -36,6 +36,7 @@ type Task struct {
 // World is one simulated execution. All fields are protected by mu, which is never held
 // across a blocking operation.
 type World struct {
+	conns []*Conn // every in-memory TCP connection end, for process death
 	mu      sync.Mutex
 	Tape    *Tape
 	tasks   map[int64]*Task
